@@ -510,6 +510,7 @@ def run(ctx: RuleContext, p: Program) -> None:
     ctx.try_rule(rule_ed_sets, p, 'ED-SETS', fns)
     ctx.try_rule(rule_ed_fresh, p, fns, 'ED-FRESH')
     ctx.try_rule(rule_ed_order, p, fns, 'ED-ORDER')
+    ctx.try_rule(rule_ed_glob, p, fns, 'ED-GLOB')
     ctx.not_decided += ['glob matching semantics', 'filesystem races', 'what the parser/printer produce (C01)']
     ctx.assumptions += ['Python io newline semantics: newline=None translates on read and to os.linesep on write; '
                         'any other value disables translation on read; \'\' and \'\\n\' write verbatim',
@@ -648,3 +649,52 @@ def rule_ed_order(ctx: RuleContext, p: Program, fns: list[FuncInfo], rid: str) -
         ctx.ok(rid, f'editor:{fn.qualname}', 'deletions before writes; whole-file writes')
     if n < 2:
         raise AnalysisError(f'ED-ORDER: only {n} file-system mutations after a yield')
+
+
+# ====================================================================== ED-GLOB (added after seeded round 5)
+def rule_ed_glob(ctx: RuleContext, p: Program, fns: list[FuncInfo], rid: str) -> None:
+    ctx.rule(rid, 'include patterns are matched by the glob module (glob.glob / glob.iglob, recursive=True) on the pattern joined to the directory '
+                  'of the including file -- the matcher whose rules the include directive documents: wildcards do not match dot-files, `**` '
+                  'recurses, absolute patterns are allowed.  pathlib.Path.glob / rglob, fnmatch over os.walk / os.listdir and re-implemented '
+                  'matching differ on exactly those points (hidden files and directories are pulled into the ledger and rewritten)')
+    callers = [f for f in fns if any(isinstance(x, ast.Attribute) and x.attr == 'filename' for x in ast.walk(f.node))
+               and any(isinstance(x, ast.Name) and x.id == 'Include' or isinstance(x, ast.Attribute) and x.attr == 'Include' for x in ast.walk(f.node))]
+    if not callers:
+        raise AnalysisError('ED-GLOB: the function that resolves include directives was not found')
+    for f in callers:
+        calls = [c for c in ast.walk(f.node) if isinstance(c, ast.Call)]
+        globs = [c for c in calls if (dotted(c.func) or '') in ('glob.glob', 'glob.iglob')]
+        other = [c for c in calls if (isinstance(c.func, ast.Attribute) and c.func.attr in ('glob', 'rglob', 'iglob') and (dotted(c.func) or '') not in ('glob.glob', 'glob.iglob'))
+                 or (dotted(c.func) or '') in ('fnmatch.fnmatch', 'fnmatch.filter', 'fnmatch.fnmatchcase', 'os.walk', 'os.listdir', 'os.scandir')]
+        site = f'editor:{f.qualname}'
+        if other or not globs:
+            bad = other[0] if other else None
+            ctx.fail(rid, site, norm(bad)[:80] if bad is not None else 'no glob.glob call',
+                     f'include patterns are matched with `{norm(bad)[:70] if bad is not None else "something other than the glob module"}`: its rules for dot-files, '
+                     f'`**` and absolute patterns are not those of glob.glob(.., recursive=True), so files the directive does not name are '
+                     f'visited (and written back), or named ones are missed', f.where)
+            continue
+        for c in globs:
+            rec = _kw(c, 'recursive')
+            pat = c.args[0] if c.args else _kw(c, 'pathname')
+            root = _kw(c, 'root_dir')
+            # local names of the function expanded (base_dir = os.path.dirname(path); pattern = os.path.join(base_dir, ...))
+            env_ = {a.targets[0].id: a.value for a in ast.walk(f.node) if isinstance(a, ast.Assign) and len(a.targets) == 1 and isinstance(a.targets[0], ast.Name)}
+
+            def expand(e: Optional[ast.AST], depth: int = 0) -> str:
+                if e is None:
+                    return ''
+                txt = norm(e)
+                if depth > 4:
+                    return txt
+                for x in ast.walk(e):
+                    if isinstance(x, ast.Name) and x.id in env_ and x.id not in ('path',):
+                        txt += ' <- ' + expand(env_[x.id], depth + 1)
+                return txt
+            pat_txt = expand(pat) + ' ' + expand(root)
+            joined = pat is not None and 'filename' in pat_txt and ('dirname' in pat_txt or 'parent' in pat_txt)
+            ok = isinstance(rec, ast.Constant) and rec.value is True and joined
+            ctx.check(ok, rid, site, norm(c)[:90],
+                      f'`{norm(c)[:90]}`: ' + ('the pattern is not taken relative to the directory of the including file' if not joined else
+                                               'recursive=True is missing, so `**` in an include pattern matches one level only'), f.where,
+                      note='glob.glob(join(dirname(path), filename), recursive=True)')
